@@ -17,6 +17,9 @@ import ast
 from ..loader import U, norm_stmt
 
 SKIP = ('chi/library/_data_library_api.py',)
+REDUCTIONS = {'np.max', 'np.min', 'np.sum', 'np.mean', 'np.amax', 'np.amin',
+              'np.prod', 'np.nanmax', 'np.nanmin', 'np.nansum', 'np.ma.max',
+              'np.ma.sum'}
 
 UNUSED_OK = {
     ('CovariateModel', 'set_parameter_names', 'mask_names'):
@@ -179,6 +182,28 @@ def r00(ctx, repo, files=None):
                     '%s accepts the argument `%s` and never reads it: the '
                     'caller\'s value is silently dropped (not forwarded to '
                     'the call that implements the method)' % (construct, p))
+        # L5: a function that takes `axis` hands it to every reduction over
+        # its array argument (a reduction without it collapses all axes)
+        pnames = [a.arg for a in fn.args.args + fn.args.kwonlyargs]
+        if 'axis' in pnames:
+            first = [p for p in pnames if p not in ('self', 'axis',
+                                                    'keepdims')][:1]
+            for c in ast.walk(fn):
+                if isinstance(c, ast.Call) and U(c.func) in REDUCTIONS \
+                        and c.args and first and isinstance(
+                            c.args[0], ast.Name) and c.args[0].id in first:
+                    has_axis = len(c.args) > 1 or any(
+                        k.arg == 'axis' for k in c.keywords)
+                    if not has_axis:
+                        bad += 1
+                        ctx.violation(
+                            rule, repo.loc(c, cls, fn.name), construct,
+                            'L5 reduction without axis',
+                            '`%s` reduces `%s` over all axes although %s '
+                            'takes an `axis` argument and its other '
+                            'reductions use it: the result is a global '
+                            'instead of a per-slice quantity' % (
+                                norm_stmt(c)[:60], first[0], construct))
         if not bad:
             ctx.ok(rule, repo.loc(fn, cls, fn.name), construct,
                    'loop elements are used, no stale loop variable, every '
